@@ -5,7 +5,7 @@ from __future__ import annotations
 
 from sa.guards import CountResolver
 from sa.cfront import LIB_TUS
-from . import lib_guards, lib_module, lib_gate, lib_err, lib_file, lib_taint
+from . import lib_guards, lib_module, lib_gate, lib_err, lib_file, lib_taint, lib_mem
 
 LEVEL = "other"
 EXPLANATION = ("Static analysis of /repo's current C and Python source (clang type-checked AST, Python ast): "
@@ -30,6 +30,7 @@ def run(ctx):
     lib_module.format_types(ctx, P)
     lib_file.offsets_cover(ctx, P)
     T = lib_taint.public_ids(ctx, P)
+    lib_mem.sizeof_elements(ctx, P)
     lib_taint.length_pairing(ctx, P, T)
     ctx.assumptions += [
         "clang-14's AST reflects the code that setup.py compiles (same include paths, -std=c99)",
